@@ -193,7 +193,7 @@ Definition ex2_specl : list screen_spec :=
   [ {| sc_setup := []; sc_refresh := []; sc_show := []; sc_closed := [];
        sc_input := [([49%N], ([SForceQuit], RKey [113%N]))]; sc_input_default := ([], None);
        sc_prompt_none := false; sc_input_required := true; sc_no_separator := false; sc_skip_check := false;
-       sc_pages := 0; sc_answer0 := AnsNoAttr |} ] ++ map adv_spec [KYesNo].
+       sc_pages := 0; sc_answer0 := AnsNoAttr; sc_custom := [] |} ] ++ map adv_spec [KYesNo].
 Definition ex2_run :=
   app_run_all (fun n => nth n ex2_specl default_spec) ex2_specl [Some [49%N]; Some s_yes] (Some 1) false 3000
               [SACmds [SSchedule 0 0]; SARun].
